@@ -3,7 +3,7 @@ from verif import VERIF, REPO, LEAN, GOENV, sh
 
 THEOREMS = {
     "Dawgs.Props.C20": ["Dawgs.C20.Props." + t for t in [
-        "sanitize_safe", "sanitize_rejects",
+        "clean_spec", "sanitize_safe", "sanitize_rejects",
         "extract_regular_only", "extract_no_overwrite", "extract_confined",
         "frames_authentic", "frames_tamper_rejected", "wrong_key_rejected", "symAead_free",
         "verify_before_write", "fragment_mutation_rejected", "manifest_edit_safe",
@@ -69,7 +69,27 @@ def finding_key(suite, ops, line, msg):
     return "C20:Load:%s" % cls
 
 
+def extra_coverage(ctx, stats):
+    """Small-scope enumerations: measured count next to the closed formula (exhaustive = they agree)."""
+    L = 4 if ctx.tier == "quick" else 6
+    seeds = 1 if ctx.tier == "quick" else 2
+    want_paths = sum(7 ** k for k in range(L + 1)) * seeds
+    got_paths = stats.get("gen.gen.exhaustive_paths", 0)
+    Lf = 4 if ctx.tier == "quick" else 5
+    want_scripts = (sum(7 ** k for k in range(1, Lf + 1)) + sum(7 ** k for k in range(1, (3 if ctx.tier == "quick" else Lf) + 1))) * seeds
+    got_scripts = stats.get("gen.gen.exhaustive_scripts", 0)
+    return {
+        "small_scope": {
+            "paths_over_7_symbols_up_to_len_%d" % L: {"enumerated": got_paths, "formula": want_paths},
+            "frame_sequences_over_7_frames_up_to_len_%d" % Lf: {"enumerated": got_scripts, "formula": want_scripts},
+        },
+        "exhaustive": got_paths == want_paths and got_scripts == want_scripts,
+        "byte_mutations": {k: stats.get("gen.gen." + k, 0) for k in ("sub", "sub_digit", "trunc", "append", "swapcopy", "man_file", "arc_sub", "arc_trunc", "tar_name_type", "tar_enc")},
+    }
+
+
 SPEC = {
+    "extra_coverage": extra_coverage,
     "id": "C20",
     "title": "corrupt, tampered or hostile dump input is rejected before it can do harm",
     "level": "proof",
